@@ -100,6 +100,11 @@ impl SymbolTable {
         self.contexts.pop().unwrap().max_size()
     }
 
+    /// Whether we are currently in the global context (so not inside any function)
+    pub fn is_global_context(&self) -> bool {
+        self.contexts.len() == 1
+    }
+
     /// Enter a new scope in the current context
     /// For example, at the start of a block statement.
     pub fn enter_scope(&mut self) {
